@@ -41,6 +41,7 @@ def _run(tape):
     pos = tape.draw(64)
     kind = tape.draw(8)
     sc = E.Scenario(tape, force_dedicated=True)
+    sc.allow_kill_failure = True
     worker_faults = ['worker_hang', 'worker_exit', 'worker_abort', 'worker_late_answer', 'worker_late_death']
     if placed:
         sc.behaviours = ['equal'] * sc.n
@@ -77,7 +78,7 @@ def _run(tape):
         run.violate('run_terminates', 'livelock', 'the comparison run did not finish within the step / time cap: %s' % out.limit)
         return run
     # ---- bounded liveness per comparison
-    slack = 1.0 + 0.05 + sc.queue_delay * 2 + sc.slow_start + (0.2 if sc.jitter else 0.0) + 0.35
+    slack = 1.0 + 0.05 + sc.queue_delay * 2 + sc.slow_start + (0.2 if sc.jitter else 0.0) + 0.35 + sc.exit_delay
     bound = sc.timeout + slack
     for i, d in enumerate(out.durations):
         if d > bound:
@@ -92,10 +93,14 @@ def _run(tape):
             break
     # ---- hung workers were killed, nobody is left behind
     hung = [p for p in mp.processes if p.alive_quiet()]
-    if out.alive_after_grace:
+    unkillable = [p.pid for p in mp.processes if p.kill_failed]
+    if unkillable:
+        run.probe('kill_failed_worker_lives_on')
+    left = [pid for pid in (out.alive_after_grace or []) if pid not in unkillable]
+    if left:
         reason = 'hung' if any(b in ('worker_hang',) for b in sc.behaviours) else 'idle'
         run.violate('no_worker_left_behind', 'worker-alive-after-run:%s:%s' % (sc.consume, reason),
-                    'simulated worker process(es) %s still alive %.2f s after the run %s' % (out.alive_after_grace, 0.07 + sc.slow_start,
+                    'simulated worker process(es) %s still alive %.2f s after the run %s' % (left, 0.07 + sc.slow_start,
                                                                                       'completed' if sc.consume == 'full' else 'was abandoned (%s)' % sc.consume))
     return run
 
